@@ -46,23 +46,113 @@ def build_impl(spec):
             cls = ThermochemGroup if spec['kind'] == 'grp' else ThermochemIncomplete
             obj = cls(spec['href'], spec['sref'], dict((p[0], p[1]) for p in pts), spec['tref'], rng)
             if spec.get('via_update') and pts:
-                # the same correlation reached in two steps: first other heat capacities on the same temperature grid and a
-                # narrower range (the table span and T_ref), then the final data merged in with overwrite.  The result must
-                # behave exactly like the directly constructed object (the interpolant has to be rebuilt).
-                ts = [p[0] for p in pts] + [spec['tref']]
-                narrow = None if rng is None else (max(rng[0], min(ts)), min(rng[1], max(ts)))
-                if spec['via_update'] == 'range':
-                    # identical data, only the range grows with the merge
-                    first = cls(spec['href'], spec['sref'], dict((p[0], p[1]) for p in pts), spec['tref'], narrow)
-                    first.update(obj)
-                else:
-                    first = cls(None if spec['href'] is None else spec['href'] + 1.0, spec['sref'],
-                                dict((p[0], p[1] + 0.5) for p in pts), spec['tref'], narrow)
-                    first.update(obj, overwrite=True)
-                obj = first
+                obj = reach(cls, spec, obj, pts, rng)
         return obj, 'ok'
     except Exception as e:
         return None, exc_name(e)
+
+
+WAYS = [True, 'range', 'pre-eval', 'del-point', 'set-range', 'refs-late', 'del-refs', 'refused-update']
+
+
+def pre_evaluate(o, temps):
+    """use an object before it is changed: every getter at the probe temperatures, the YAML text, a copy (results are
+    discarded; whatever an implementation remembers from these calls must not survive the change that follows)"""
+    with warnings.catch_warnings():
+        warnings.simplefilter('ignore')
+        for T in temps:
+            for name in ('get_CpoR', 'get_HoRT', 'get_SoR', 'get_GoRT'):
+                try:
+                    getattr(o, name)(T)
+                except Exception:
+                    pass
+            for name, u in (('get_H', 'kJ/mol'), ('get_G', 'kJ/mol'), ('get_S', 'J/mol/K'), ('get_Cp', 'J/mol/K')):
+                try:
+                    getattr(o, name)(T, u)
+                except Exception:
+                    pass
+        for call in (lambda: o.yaml_format(), lambda: o.yaml_format({'H': 'kJ/mol', 'S': 'J/(mol K)', 'Cp': 'J/(mol K)', 'T': 'K'}),
+                     lambda: o.copy(), lambda: o.get_range()):
+            try:
+                call()
+            except Exception:
+                pass
+
+
+def reach(cls, spec, direct, pts, rng):
+    """The same correlation reached through a history of the public API instead of one constructor call; the result must
+    behave exactly like the directly constructed object `direct` (DESIGN 9.9: whatever is remembered between calls —
+    interpolants, memoised values, formatted texts — has to follow every change of the data)."""
+    way = spec['via_update']
+    href, sref, tref = spec['href'], spec['sref'], spec['tref']
+    table = dict((p[0], p[1]) for p in pts)
+    ts = sorted(table) + [tref]
+    probes = sorted(set(ts + [0.5 * (a + b) for a, b in zip(ts, ts[1:])] + ([rng[0], rng[1]] if rng else [])))
+    narrow = None if rng is None else (max(rng[0], min(ts)), min(rng[1], max(ts)))
+    if way == 'range':
+        # identical data, only the range grows with the merge
+        first = cls(href, sref, table, tref, narrow)
+        first.update(direct)
+    elif way in (True, 'pre-eval'):
+        # other heat capacities on the same temperature grid and a narrower range first, then the final data merged in
+        first = cls(None if href is None else href + 1.0, sref, dict((T, v + 0.5) for T, v in table.items()), tref, narrow)
+        if way == 'pre-eval':
+            pre_evaluate(first, probes)
+        first.update(direct, overwrite=True)
+    elif way == 'del-point':
+        # one more tabulated point, used, then withdrawn
+        lo, hi = min(table), max(table)
+        if len(table) > 1:
+            tx = 0.5 * (sorted(table)[0] + sorted(table)[1])
+        elif rng is not None and lo + 1.0 <= rng[1]:
+            tx = lo + 1.0
+        elif rng is not None and lo - 1.0 >= rng[0]:
+            tx = lo - 1.0
+        else:
+            tx = None
+        if tx is None or tx in table:
+            return direct
+        more = dict(table)
+        more[tx] = table[lo] + 0.75
+        first = cls(href, sref, more, tref, rng)
+        pre_evaluate(first, probes + [tx])
+        first.del_ND_Cp(tx)
+    elif way == 'set-range':
+        if rng is None:
+            return direct
+        first = cls(href, sref, table, tref, (rng[0] - 40.0, rng[1] + 55.0))
+        pre_evaluate(first, probes + [rng[0] - 20.0, rng[1] + 30.0])
+        first.set_range(rng)
+    elif way == 'refs-late':
+        # heat capacities first, the reference values merged in afterwards
+        first = cls(None, None, table, tref, rng)
+        pre_evaluate(first, probes)
+        first.update(cls(href, sref, {}, tref, rng))
+    elif way == 'del-refs':
+        # other reference values, used, withdrawn, then the final ones merged in
+        first = cls(None if href is None else href - 2.5, None if sref is None else sref + 1.25, table, tref, rng)
+        pre_evaluate(first, probes)
+        first.del_ND_H_ref()
+        first.del_ND_S_ref()
+        first.update(cls(href, sref, {}, tref, rng))
+    elif way == 'refused-update':
+        # a merge that must be refused (one point conflicts) after new points were offered: nothing of it may stay
+        from pgradd.Error import ReadOnlyDataError
+        first = direct
+        pre_evaluate(first, probes)
+        t0 = max(table)
+        offer = dict(table)
+        offer.update((0.5 * (a + b), table[a] + 0.3) for a, b in zip(sorted(table), sorted(table)[1:]))
+        offer[t0] = table[t0] + 1.0
+        try:
+            first.update(cls(None, None, offer, tref, rng))
+        except ReadOnlyDataError:
+            pass
+        else:
+            raise AssertionError('an update with a conflicting heat capacity was not refused')
+    else:
+        raise ValueError(way)
+    return first
 
 
 def eval_impl(obj, which, T, stats=None):
